@@ -11,7 +11,7 @@ sink-stack events collected by class-level wrappers (used for the model labels o
 spec = {
   'stack': 'thrift' | 'mux', 'tie': 'fifo'|'lifo', 'timeout': <ticks>, 'open_timeout0': bool,
   'resurrector': {'initial': <sec>, 'max': <sec>},  'pool': {'min':, 'max':, 'maxq':},
-  'endpoints': [{'port': int, 'reach': [[tick, 'up'|'down'|'hang'], ...], 'plan': {...}, 'default': {...}, 'ping': ...,
+  'endpoints': [{'port': int, 'reach': [[tick, 'up'|'down'|'hang'], ...], 'plan': {...}, 'default': {...}, 'ping': ..., 'connect_delay': ticks,
                  'member': bool (in the initial server set, default True)}],
   'faults': [{'op': 'send'|'recv'|'connect', 'nth': int, 'what': 'exc'|'eof'|'refuse'|'hang', 'port': int|None}],
   'events': [{'at': tick, 'op': 'call', 'id': str, 'timeout': ticks|None} | {'at':, 'op': 'join'|'leave', 'port':} |
@@ -118,6 +118,15 @@ def _install_hooks():
     return orig_req(self, sink_stack, msg, stream, headers)
   sk.ClientTimeoutSink.AsyncProcessRequest = ts_req
 
+  orig_push = sk.SinkStack.Push
+
+  def st_push(self, sink, context=None):
+    w = V._CUR[0]
+    if w is not None and hasattr(w, 'stack_of') and id(self) in w.stack_of:
+      rec('push', w.stack_of.get(id(self)), type(sink).__name__)
+    return orig_push(self, sink, context)
+  sk.SinkStack.Push = st_push
+
   orig_th = sk.ClientTimeoutSink._TimeoutHelper
 
   def ts_th(self, evt, sink_stack):
@@ -128,6 +137,7 @@ def _install_hooks():
   sk.ClientTimeoutSink._TimeoutHelper = ts_th
 
   orig_resp = sk.ClientMessageSinkStack.AsyncProcessResponse
+  in_resp = [0]
 
   def st_resp(self, stream, msg):
     w = V._CUR[0]
@@ -135,8 +145,26 @@ def _install_hooks():
       top = type(self._stack[-1][0]).__name__ if self._stack else None
       kind = 'stream' if msg is None else (type(getattr(msg, 'error', None)).__name__ if getattr(msg, 'error', None) is not None else 'value')
       rec('resp', w.stack_of.get(id(self)), len(self._stack), top, kind)
-    return orig_resp(self, stream, msg)
+    # the Pop() done by AsyncProcessResponse itself is part of the 'resp' event: expect exactly one
+    in_resp[0] = id(self)
+    try:
+      return orig_resp(self, stream, msg)
+    finally:
+      if in_resp[0] == id(self):
+        in_resp[0] = 0
   sk.ClientMessageSinkStack.AsyncProcessResponse = st_resp
+
+  orig_pop = sk.SinkStack.Pop
+
+  def st_pop(self):
+    w = V._CUR[0]
+    if in_resp[0] == id(self):
+      in_resp[0] = 0
+    elif w is not None and hasattr(w, 'stack_of') and id(self) in w.stack_of:
+      top = type(self._stack[-1][0]).__name__ if self._stack else None
+      rec('rawpop', w.stack_of.get(id(self)), top)
+    return orig_pop(self)
+  sk.SinkStack.Pop = st_pop
 
   orig_done = dp._AsyncResponseSink.AsyncProcessResponse
 
@@ -162,7 +190,7 @@ def outcome_kind(ar):
 
 def run(spec):
   rng = random.Random(spec.get('seed', 0))
-  w = V.World(rng, t0=T0, tie=spec.get('tie', 'fifo'))
+  w = V.World(rng, t0=T0, tie=spec.get('tie', 'fifo'), resolution=spec.get('resolution', 1) * V.TICK)
   w.trace = []
   w.stack_of = {}
   w.keep = []
@@ -185,6 +213,7 @@ def _run(spec, w):
     if stack == 'mux':
       kw['ping'] = ep.get('ping', True)
     srv = cls(ep['port'], reachable=_reach_fn(ep.get('reach')), plan=ep.get('plan'), default=ep.get('default'), **kw)
+    srv.connect_delay = ep.get('connect_delay', 0)
     w.add_server(srv)
     servers[ep['port']] = srv
     members[ep['port']] = ScalesUriParser.Server(Endpoint('h', ep['port']))
@@ -249,6 +278,10 @@ def _run(spec, w):
       rec = {'id': cid, 'issued': ticks(w.clock.now), 'timeout': e.get('timeout') or spec.get('timeout', 64),
              'done': []}
       calls[cid] = rec
+      try:
+        rec['opened'] = bool(client._dispatcher._open_ar.ready())
+      except Exception:
+        rec['opened'] = None
       if client is None:
         rec['issue_error'] = 'no client'
         return
